@@ -302,6 +302,11 @@ class Harness:
             w.b_res = False
         return w
 
+    def after_clone(self, w):
+        w.name = {id(c): f'{k}.{T}' for (k, T), c in w.comp.items()}
+        if self.two:
+            w.name.update({id(c): f'b1.{T}' for T, c in w.bcomp.items()})
+
     def ident(self, key):
         return self.idof[key]
 
@@ -591,7 +596,7 @@ def run(ctx):
     for kind in (('plain', 'grid') if ctx.tier == 'quick' else ('plain', 'space', 'discrete', 'line', 'grid')):
         h = Harness(kind, False, three, taint_depth=1, preattached={'a1': 'XY', 'a2': 'X', 'a3': 'YX', 'a4': 'X'},
                     structural=False)
-        r = hbfs.explore(ctx, h, f'{kind}:four_agents_join_leave', max_depth=40, procs=ctx.procs)
+        r = hbfs.explore(ctx, h, f'{kind}:four_agents_join_leave', max_depth=40, procs=ctx.procs, clone=True)
         ctx.leg(f'{kind}:four_agents_join_leave', **r)
         if not r.get('fixpoint'):
             ctx.cap(f'{kind}:four_agents_join_leave: fixpoint not reached')
